@@ -357,6 +357,7 @@ type Enc struct {
 	clauseSeen    map[string]bool   // iteration / exit clauses: evaluated on at least one path?
 	defaultExterns map[string]bool  // library functions used through the default assumed contract
 	usedSend       bool
+	staticSelf     map[string]types.Type // parameter types of the interface method being called (for loop write sets)
 }
 
 type modRef struct {
